@@ -265,6 +265,9 @@ async fn run(scn: Value) -> Value {
         with_hex: scn.get("hex").and_then(|x| x.as_bool()).unwrap_or(false),
     };
     let empty = vec![];
+    if scn.get("timing").and_then(|x| x.as_bool()).unwrap_or(false) {
+        mockpg::LOG_TIME.store(true, Ordering::SeqCst); // C20: every event carries t_us
+    }
     if scn.get("log_out").and_then(|x| x.as_bool()).unwrap_or(false) {
         mockpg::LOG_OUT.store(true, Ordering::SeqCst); // C03: log every byte the mock backends write
     }
@@ -324,6 +327,13 @@ async fn run(scn: Value) -> Value {
                             g.insert(k.clone(), v.as_str().unwrap_or("").to_string());
                         }
                     }
+                    if let Some(rs) = step.get("reply_segs").and_then(|x| x.as_array()) {
+                        // C20: cut every flush of this backend at these offsets, reply_segd ms apart ([] switches it off)
+                        *b.reply_segs.lock() = rs.iter().filter_map(|x| x.as_u64()).map(|x| x as usize).collect();
+                        if let Some(d) = step.get("reply_segd").and_then(|x| x.as_u64()) {
+                            b.reply_segd.store(d, Ordering::SeqCst);
+                        }
+                    }
                     if let Some(g) = step.get("open_gate").and_then(|x| x.as_str()) {
                         b.gates.lock().insert(g.to_string()); // C10: let the statement carrying /*mock:gate=<g>*/ finish
                     }
@@ -340,7 +350,7 @@ async fn run(scn: Value) -> Value {
                 let mut bs = serde_json::Map::new();
                 for (n, b) in &ctx.backends {
                     let open: Vec<Value> = b.open_conns.lock().iter().map(|(k, v)| json!({"conn": k, "s": v})).collect();
-                    bs.insert(n.clone(), json!({"open": open, "max_open": b.max_open.load(Ordering::SeqCst)}));
+                    bs.insert(n.clone(), json!({"open": open, "max_open": b.max_open.load(Ordering::SeqCst), "max_open_settled": b.max_open_settled.load(Ordering::SeqCst)}));
                 }
                 s["backends"] = Value::Object(bs);
                 s["total_clients"] = json!(ctx.pooler.as_ref().unwrap().total_clients.load(Ordering::SeqCst));
@@ -391,6 +401,20 @@ async fn run(scn: Value) -> Value {
                 let r = pgcat::config::reload_config(ctx.pooler.as_ref().unwrap().client_server_map.clone()).await;
                 mockpg::log_event(&log, json!({"who": "harness", "ev": "reload", "result": format!("{:?}", r)}));
             }
+            // C14 (additive): reload_config in its own task (a panic becomes the result "panic"); the config file
+            // removed; CONFIG / POOLS / pool-object identities as seen through pgcat's public API
+            "reload_guarded" => {
+                let r = vh::reloadobs::guarded_reload(ctx.pooler.as_ref().unwrap().client_server_map.clone()).await;
+                mockpg::log_event(&log, json!({"who": "harness", "ev": "reload", "result": r, "label": step["label"]}));
+            }
+            "delete_config" => {
+                let ok = std::fs::remove_file(&ctx.cfg_path).is_ok();
+                mockpg::log_event(&log, json!({"who": "harness", "ev": "config_deleted", "ok": ok}));
+            }
+            "reload_state" => {
+                let s = vh::reloadobs::observe();
+                mockpg::log_event(&log, json!({"who": "harness", "ev": "reload_state", "label": step["label"], "state": s}));
+            }
             "wait_tasks" => {
                 // C09: wait until at least `n` pgcat client tasks have ended (task_results.len() >= n)
                 let n = step["n"].as_u64().unwrap_or(0) as usize;
@@ -411,7 +435,9 @@ async fn run(scn: Value) -> Value {
                 let contains = step.get("contains").and_then(|x| x.as_str()).map(|x| x.to_string());
                 let count_now = |log: &Log| log.lock().iter().filter(|e| e["ev"] == ev.as_str() && who.as_ref().map(|w| e["who"] == w.as_str()).unwrap_or(true) && contains.as_ref().map(|c| e.to_string().contains(c.as_str())).unwrap_or(true)).count();
                 if op == "mark_events" {
-                    marks.insert(step["mark"].as_str().unwrap_or("m").to_string(), count_now(&log));
+                    let n0 = count_now(&log);
+                    marks.insert(step["mark"].as_str().unwrap_or("m").to_string(), n0);
+                    mockpg::log_event(&log, json!({"who": "harness", "ev": "mark", "mark": step["mark"], "of": ev, "count": n0}));
                 } else {
                     let base = step.get("above_mark").and_then(|x| x.as_str()).and_then(|m| marks.get(m).cloned()).unwrap_or(0);
                     let n = base + step["count"].as_u64().unwrap_or(1) as usize;
@@ -447,6 +473,20 @@ async fn run(scn: Value) -> Value {
                 pooler::HOOK_ACTORS.store(on, Ordering::SeqCst);
                 pgcat::verif_hooks::GATE.0.lock().unwrap().tickets.insert(0, u64::MAX / 2); // actor 0 never parks
                 pgcat::verif_hooks::arm(on);
+                if on {
+                    // A parked client task blocks its tokio worker thread.  If that worker was the one that
+                    // had just polled the I/O driver and nobody else is awake, the whole runtime would stall;
+                    // two always-runnable tasks keep other workers awake (a running worker polls the driver
+                    // every few dozen ticks) for as long as the hooks are armed.
+                    for _ in 0..2 {
+                        tokio::spawn(async {
+                            while pooler::HOOK_ACTORS.load(Ordering::SeqCst) {
+                                std::thread::sleep(std::time::Duration::from_micros(40));
+                                tokio::task::yield_now().await;
+                            }
+                        });
+                    }
+                }
                 mockpg::log_event(&log, json!({"who": "harness", "ev": "hook", "arm": on, "park": park, "accepted": pooler::ACCEPTED.load(Ordering::SeqCst)}));
             }
             "hook_wait" => {
@@ -471,6 +511,31 @@ async fn run(scn: Value) -> Value {
                 }
                 let have = ctx.pooler.as_ref().unwrap().task_results.lock().len();
                 mockpg::log_event(&log, json!({"who": "harness", "ev": "wait_tasks", "have": have, "want": n, "ms": t0.elapsed().as_millis() as u64}));
+            }
+            "wait_inuse" => {
+                // wait until the pooler's bb8 pools report exactly n connections in use (or timeout)
+                let want = step["n"].as_u64().unwrap_or(0);
+                let to = step["timeout_ms"].as_u64().unwrap_or(1500);
+                let t0 = std::time::Instant::now();
+                let mut got;
+                loop {
+                    got = 0u64;
+                    for (_, pool) in pgcat::pool::get_all_pools() {
+                        for s in 0..pool.shards() {
+                            for i in 0..pool.servers(s) {
+                                let st = pool.pool_state(s, i);
+                                got += (st.connections - st.idle_connections.min(st.connections)) as u64;
+                            }
+                        }
+                    }
+                    if got == want || (t0.elapsed().as_millis() as u64) >= to {
+                        break;
+                    }
+                    tokio::time::sleep(std::time::Duration::from_millis(2)).await;
+                }
+                if got != want {
+                    mockpg::log_event(&log, json!({"who": "harness", "ev": "wait_inuse_timeout", "want": want, "got": got}));
+                }
             }
             "wait_exit" => {
                 let t0 = std::time::Instant::now();
